@@ -37,7 +37,7 @@
    Executable definitions only. *)
 From Coq Require Import ZArith.
 From Trzsz Require Export Base.Bytes.
-From Trzsz Require Import Gen.Consts Model.Path Model.Fs Model.Names Model.Escape Model.Base64 Model.Wire.
+From Trzsz Require Import Gen.Consts Model.Path Model.Fs Model.Names Model.Escape Model.Base64 Model.Wire Model.RelayNeg.
 
 (* ---- configuration (transferConfig as both ends hold it after the CFG line) ---- *)
 Record tr_cfg := mkTrCfg {
@@ -603,3 +603,70 @@ Definition tr_shape_ok (pipe : bool) (log : list (bool * tr_msg)) : bool :=
   end.
 
 End Transfer.
+
+(* ============================ WHAT THE THEOREMS SAY ============================ *)
+Definition tr_p_id (p : tr_npayload) : option Z := match p with TrJson s _ => Some (s_id s) | TrPlain _ => None end.
+Definition tr_p_head (p : tr_npayload) : name := match p with TrJson s _ => hd [] (s_rel s) | TrPlain nm => nm end.
+
+(* where an entry lands below its top-level name, what is to be there, and its top-level name as sent *)
+Definition tr_tail (c : tr_cfg) (e : tr_entry) : list name := tr_p_tail (tr_payload c e).
+Definition tr_node (e : tr_entry) : node := if te_isdir e then Dir else File (te_data e).
+Definition tr_key (c : tr_cfg) (e : tr_entry) : name := tr_p_head (tr_payload c e).
+
+(* the source list as checkPathsReadable / checkDuplicateNames leave it:
+   overwrite off, JSON names: no two entries with the same path id and the same path below the
+   top-level name, and the first entry of every path id is the top-level one;
+   overwrite on: no two entries with the same relative path (plain mode: the same name) *)
+Definition tr_wf (c : tr_cfg) (es : list tr_entry) : Prop :=
+  (tc_overwrite c = false -> tr_json c = true ->
+     NoDup (map (fun e => (te_id e, tl (te_rel e))) es) /\
+     (forall pre e post, es = pre ++ e :: post -> tl (te_rel e) <> [] -> exists e', In e' pre /\ te_id e' = te_id e)) /\
+  (tc_overwrite c = true -> NoDup (map (fun e => tr_key c e :: tr_tail c e) es)).
+
+(* the destination [ff] holds the source entries [es] under the names [per] (one per entry; [all] is
+   their deduplicated list): same relative structure, same bytes; with overwrite on the names are the
+   ones sent, with overwrite off they did not exist in [f0] and do now; nothing that existed is gone *)
+Definition tr_tree_at (c : tr_cfg) (d : path) (f0 ff : fs) (es : list tr_entry) (per all : list name) : Prop :=
+  length per = length es /\
+  (forall ln, In ln all <-> In ln per) /\ NoDup all /\
+  (forall e ln, In (e, ln) (combine es per) -> lookup ff (d ++ ln :: tr_tail c e) = Some (tr_node e)) /\
+  (tc_overwrite c = true -> forall e ln, In (e, ln) (combine es per) -> ln = tr_key c e) /\
+  (tc_overwrite c = false -> forall e ln, In (e, ln) (combine es per) ->
+     lookup f0 (d ++ [ln]) = None /\ lookup ff (d ++ [ln]) <> None) /\
+  (forall q, lookup f0 q <> None -> lookup ff q <> None).
+
+(* both sides report success with the same names, the queues are empty, the tree is there, and
+   the transcript has the shape of the grammar *)
+Definition tr_outcome_ok {digest : Type} (c : tr_cfg) (d : path) (f0 : fs) (ess : list (tr_entry * tr_sched))
+    (cf : tr_conf digest) : Prop :=
+  tr_sender_ok digest cf = true /\ tr_receiver_ok digest cf = true /\ tr_quiet digest cf = true /\
+  exists per all, ss_names (cf_s digest cf) = all /\ rs_names (cf_r digest cf) = all /\
+    tr_tree_at c d f0 (st_fs (rs_st (cf_r digest cf))) (map fst ess) per all /\
+    tr_shape_ok digest (tr_pipeline c) (cf_log digest cf) = true.
+
+(* the escape table is absent or well-formed *)
+Definition tr_table_ok (c : tr_cfg) : Prop := tc_table c = [] \/ wf (tc_table c) = true.
+
+(* [tr_wf] as a computation *)
+Fixpoint tr_nodupb {A} (eqb : A -> A -> bool) (l : list A) : bool :=
+  match l with
+  | [] => true
+  | x :: r => negb (existsb (eqb x) r) && tr_nodupb eqb r
+  end.
+Fixpoint tr_first_top (seen : list Z) (es : list tr_entry) : bool :=
+  match es with
+  | [] => true
+  | e :: r =>
+    (match tl (te_rel e) with [] => true | _ => existsb (Z.eqb (te_id e)) seen end) && tr_first_top (te_id e :: seen) r
+  end.
+Definition tr_wfb (c : tr_cfg) (es : list tr_entry) : bool :=
+  if tc_overwrite c then tr_nodupb path_eqb (map (fun e => tr_key c e :: tr_tail c e) es)
+  else if tr_json c then
+    tr_nodupb (fun a b => Z.eqb (fst a) (fst b) && path_eqb (snd a) (snd b)) (map (fun e => (te_id e, tl (te_rel e))) es)
+    && tr_first_top [] es
+  else true.
+
+(* ---- the configuration both ends hold after the negotiation of Model/RelayNeg.v (C14) ---- *)
+Definition tr_cfg_of (nc : n_config) (upload : bool) : tr_cfg :=
+  mkTrCfg (Z.to_N (nc_protocol nc)) (nc_binary nc) (nc_directory nc) (nc_overwrite nc) (Z.to_N (nc_compress nc))
+          (match nc_escape nc with Some t => t | None => [] end) upload.
